@@ -31,6 +31,8 @@ func main() {
 		cmdStruct(os.Args[2:])
 	case "calls":
 		cmdCalls(os.Args[2:])
+	case "sig":
+		cmdSig(os.Args[2:])
 	case "rules":
 		cmdRules(os.Args[2:])
 	default:
